@@ -38,10 +38,11 @@ type c19Outcome struct {
 	Head     string
 	Known    string
 	Pool     string
+	Confirms string // per known block: which deputies' confirmations the store holds for it
 }
 
 func (o c19Outcome) key() string {
-	return strings.Join(o.Verdicts, "|") + " stable=" + o.Stable + " head=" + o.Head + " known=" + o.Known + " pool=" + o.Pool
+	return strings.Join(o.Verdicts, "|") + " stable=" + o.Stable + " head=" + o.Head + " known=" + o.Known + " pool=" + o.Pool + " confirms=" + o.Confirms
 }
 
 type c19Pub struct {
@@ -148,6 +149,17 @@ func c19Run(c *Ctx, order []int, serial bool) (out c19Outcome, reqs []c19Req, pu
 		return
 	}
 	fab = append(fab, cand...)
+	// prepared mode: the node already holds the fork b | a <- child and (as a deputy) has signed b, not a. A
+	// confirmation packet that makes the child stable then makes a stable WITHOUT enough confirmations of
+	// its own: the engine's background confirmer signs it while late confirmations for it still arrive.
+	prepared := false
+	if a != nil && b != nil && len(cand) == 3 && nutIsDeputy && p.NDeputies >= 3 && c.Draw("late", 3) == 2 {
+		prepared = true
+		nut.InsertBlock(wireCopyBlock(b))
+		nut.InsertBlock(wireCopyBlock(a))
+		nut.InsertBlock(wireCopyBlock(cand[2]))
+		c.Probe("prepared_fork_with_unsigned_ancestor")
+	}
 	// pool content before the phase
 	// the node's pool holds its own copies (as decoded from its own network/RPC input), never
 	// the objects that sit inside the fabricated blocks
@@ -159,12 +171,38 @@ func c19Run(c *Ctx, order []int, serial bool) (out c19Outcome, reqs []c19Req, pu
 	// make the node's own slot come up for MineBlock if it is a deputy
 	k := 2 + c.Draw("gen", 3)
 	for i := 0; i < k; i++ {
+		if prepared && i < 2 {
+			blk := cand[2] // the child: everybody else confirms it
+			var sigs []types.SignData
+			for kk := range net.Deputies {
+				if kk == nutRank || net.Deputies[kk].Miner.Addr == blk.MinerAddress() {
+					continue
+				}
+				if i == 0 {
+					sigs = append(sigs, net.Confirm(kk, blk.Hash()))
+				} else if net.Deputies[kk].Miner.Addr != a.MinerAddress() && len(sigs) == 0 {
+					sigs = append(sigs, net.Confirm(kk, a.Hash())) // one late confirmation for the ancestor
+				}
+			}
+			if i == 1 {
+				blk = a
+			}
+			if len(sigs) > 0 {
+				reqs = append(reqs, c19Req{Kind: "confirms", Block: blk, Sigs: sigs, Label: fmt.Sprintf("InsertConfirms([%d]%s,%d sigs)", blk.Height(), blk.Extra(), len(sigs))})
+				continue
+			}
+		}
 		switch r := c.Draw("gen", 10); {
 		case r < 5:
 			blk := cand[c.Draw("gen", len(cand))]
 			reqs = append(reqs, c19Req{Kind: "block", Block: blk, Label: fmt.Sprintf("InsertBlock([%d]%s)", blk.Height(), blk.Extra())})
 		case r < 8:
 			blk := cand[c.Draw("gen", len(cand))]
+			if npre > 0 && c.Draw("late", 4) == 3 {
+				// a late confirmation for a block of the pre-state (possibly stable already: the store then
+				// rewrites the block on disk, which the engine's own background confirmer may do at the same time)
+				blk = fab[c.Draw("late", npre)]
+			}
 			var sigs []types.SignData
 			for kk := range net.Deputies {
 				if kk != nutRank && net.Deputies[kk].Miner.Addr != blk.MinerAddress() && c.Draw("gen", 3) != 0 {
@@ -256,6 +294,29 @@ func c19Run(c *Ctx, order []int, serial bool) (out c19Outcome, reqs []c19Req, pu
 			}
 		}
 		out.Known = strings.Join(known, ",")
+		var cs []string
+		for _, fb := range fab {
+			sb, err := nut.DB.GetBlockByHash(fb.Hash())
+			if err != nil || sb == nil {
+				continue
+			}
+			var who []string
+			for _, sg := range sb.Confirms {
+				id, err := sg.RecoverNodeID(sb.Hash())
+				if err != nil {
+					who = append(who, "invalid")
+					continue
+				}
+				if d := net.DeputyByNodeID(id); d != nil {
+					who = append(who, fmt.Sprintf("d%d", d.Rank))
+				} else {
+					who = append(who, "outsider")
+				}
+			}
+			sort.Strings(who)
+			cs = append(cs, name(fb)+":"+strings.Join(who, "+"))
+		}
+		out.Confirms = strings.Join(cs, ",")
 		slots, _, _ := nut.Pool.VerifDump()
 		var ph []string
 		for _, tx := range slots {
